@@ -79,6 +79,13 @@ class RuleCtx:
             return self.ok(node, construct, detail, nf, anchor, sub=sub)
         return self.bad(node, construct, bad_detail or detail, nf, anchor, sub=sub)
 
+    def recog(self, cond, node, what):
+        """a construct the rule needs to recognise before it can say anything: absent or of another shape is
+        "not recognised" (exit 2), never a violation -- only a positively identified wrong form is reported"""
+        if not cond:
+            loc = self.m.loc(node) if node is not None and hasattr(node, "modname") else "-"
+            raise AnalysisError(f"[{self.rule}] {loc}: {what}: shape not recognised (the rule cannot decide this form)")
+
     def need(self, cond, msg):
         if not cond:
             raise AnalysisError(f"[{self.rule}] {msg}")
@@ -116,6 +123,28 @@ def load_known():
     return k
 
 
+# Shape-specific DIAGNOSTIC rules and the shape-independent rule that DECIDES the same behaviour by evaluation.
+# A diagnostic rule recognises one skeleton of the code and explains precisely what is wrong with it; on code of another
+# (equivalent) shape it may not recognise the construct or may mis-read it.  Its verdict therefore counts only when the
+# deciding rule does not hold either: if the deciding rule evaluates the current source and finds the behaviour right,
+# reports and "not recognised" errors of the diagnostic rule are downgraded to notes.
+DIAGNOSTIC = {"F1": "FM", "F4": "FM", "G4": "R14", "R08": "R14", "R11u": "R14"}
+_decided_cache = {}
+
+
+def _decider_clean(model, rid, tier):
+    key = (id(model), rid)
+    if key not in _decided_cache:
+        f, _, _ = RULES[rid]
+        cx = RuleCtx(model, tier, rid)
+        try:
+            f(cx)
+            _decided_cache[key] = not any(i.verdict == BAD for i in cx.insts) and any(i.verdict == OK for i in cx.insts)
+        except Exception:
+            _decided_cache[key] = False
+    return _decided_cache[key]
+
+
 def run_rules(model, prop, tier, only=None):
     """returns (insts, errors) ; errors = list of AnalysisError texts"""
     insts, errors, per_rule = [], [], {}
@@ -125,13 +154,25 @@ def run_rules(model, prop, tier, only=None):
         f, _, title = RULES[rid]
         cx = RuleCtx(model, tier, rid)
         t0 = time.time()
+        my_errors = []
         try:
             f(cx)
         except AnalysisError as e:
-            errors.append(str(e))
+            my_errors.append(str(e))
         except Exception as e:  # checker bug / unsupported construct: analysis error, never a verdict
             tb = traceback.format_exc(limit=6)
-            errors.append(f"[{rid}] internal error {type(e).__name__}: {e}\n{tb}")
+            my_errors.append(f"[{rid}] internal error {type(e).__name__}: {e}\n{tb}")
+        if rid in DIAGNOSTIC and (my_errors or any(i.verdict == BAD for i in cx.insts)) and DIAGNOSTIC[rid] in RULES and _decider_clean(model, DIAGNOSTIC[rid], tier):
+            dec = DIAGNOSTIC[rid]
+            for i in cx.insts:
+                if i.verdict == BAD:
+                    i.verdict = NOTE
+                    i.trivial = True
+                    i.detail = f"(diagnostic for one code shape; the behaviour is decided by rule {dec}, which holds) " + i.detail
+            for e in my_errors:
+                cx.note(None, construct=f"{rid}: {e[:160]}", detail=f"shape not recognised by this diagnostic rule; decided by rule {dec}, which holds")
+            my_errors = []
+        errors.extend(my_errors)
         # one root cause over many class descriptors: keep three representatives per (rule, anchor)
         groups = {}
         kept = []
